@@ -45,6 +45,13 @@ fn differ(a: &Out, b: &Out) -> Option<&'static str> {
     None
 }
 
+fn bytes_have_inner_newline(msgs: &[Msg]) -> bool {
+    msgs.iter().any(|m| {
+        let b = m.render();
+        b[..b.len() - 1].contains(&b'\n')
+    })
+}
+
 fn need_n(msgs: &[Msg]) -> usize {
     let mut need = 1;
     for m in msgs {
@@ -60,7 +67,7 @@ impl Prop for C02T {
         "C02"
     }
     fn budget(&self, thorough: bool) -> u64 {
-        if thorough { 3_000_000 } else { 60_000 }
+        if thorough { 10_000_000 } else { 400_000 }
     }
     fn generate(&self, seed: u64, _thorough: bool) -> Scenario {
         let mut rng = Rng::new(seed);
@@ -68,7 +75,10 @@ impl Prop for C02T {
         let m = Model::of(iface);
         let k = rng.range(1, 6);
         let max_units = rng.range(1, 5);
-        let msgs = valid_history(&mut rng, &m, k, max_units, Payloads::Plain, true);
+        // a quarter of the histories carry separators and newlines inside string /
+        // block payloads, so that a message is continued by a later read under process
+        let pay = if rng.chance(1, 4) { Payloads::SpecialNl } else { Payloads::Plain };
+        let msgs = valid_history(&mut rng, &m, k, max_units, pay, true);
         let need = need_n(&msgs).max(need_n(&rewrite(&msgs)));
         let ns: Vec<usize> = IFACES[iface].ns.iter().copied().filter(|&n| n >= need).collect();
         let n = if ns.is_empty() { *IFACES[iface].ns.last().unwrap() } else { ns[rng.below(ns.len().min(3))] };
@@ -122,31 +132,51 @@ impl Prop for C02T {
                 detail: format!("{what} of the compound history differ from its absolute one-unit-per-message rewriting (run)\n    written  : {}\n    rewritten: {}\n    got      :{}\n    expected :{}", crate::scenario::show(&orig), crate::scenario::show(&rw), brief(&a), brief(&c_run)),
             };
         }
-        // ordering: one unit at a time, response complete before the next starts
+        // ordering: one unit at a time; the response bytes of a unit are written
+        // after its handler returned and before the next handler is entered, i.e. no
+        // writer activity is ever seen while a handler is running (whether and when
+        // the writer is flushed is C04's subject)
         {
             let mut in_handler = false;
-            let mut wrote = false;
             for e in &a.events {
                 match e {
                     Ev::Enter { .. } => {
-                        if in_handler || wrote {
+                        if in_handler {
                             return Verdict::Violation {
                                 class: "unit-order".into(),
-                                detail: format!("a unit started before the previous one had finished (handler returned, response written and flushed):{}", brief(&a)),
+                                detail: format!("a handler was entered while the previous one had not returned:{}", brief(&a)),
                             };
                         }
                         in_handler = true;
                     }
                     Ev::Exit { .. } => in_handler = false,
-                    Ev::WWrite(_) => {
+                    Ev::WWrite(_) | Ev::WFlush => {
                         if in_handler {
-                            return Verdict::Violation { class: "unit-order".into(), detail: format!("response bytes written while the handler was still running:{}", brief(&a)) };
+                            return Verdict::Violation { class: "unit-order".into(), detail: format!("response bytes written / flushed while a handler was running:{}", brief(&a)) };
                         }
-                        wrote = true;
                     }
-                    Ev::WFlush => wrote = false,
                     _ => {}
                 }
+            }
+            // and every unit's response precedes the next unit: per unit responses of the
+            // compound history equal those of the one-unit-per-message rewriting, in order
+            let per_unit = |o: &Out| -> Vec<Vec<u8>> {
+                let mut v: Vec<Vec<u8>> = Vec::new();
+                for e in &o.events {
+                    match e {
+                        Ev::Enter { .. } => v.push(Vec::new()),
+                        Ev::WWrite(d) => {
+                            if let Some(l) = v.last_mut() {
+                                l.extend_from_slice(d)
+                            }
+                        }
+                        _ => {}
+                    }
+                }
+                v
+            };
+            if per_unit(&a) != per_unit(&c_run) {
+                return Verdict::Violation { class: "unit-order".into(), detail: format!("response bytes are not written between the unit that produced them and the next unit:{}", brief(&a)) };
             }
         }
         // (d) message independence: each message alone on a fresh interface
@@ -213,6 +243,9 @@ impl Prop for C02T {
         if sc.msgs.iter().any(|m| m.units.is_empty()) {
             st.bump("reach:blank_message");
         }
+        if rel && bytes_have_inner_newline(&sc.msgs) {
+            st.bump("reach:relative_unit_in_message_with_payload_newline");
+        }
         if sc.msgs.iter().any(|m| m.semi && !m.units.is_empty()) {
             st.bump("reach:message_ending_in_semicolon");
         }
@@ -229,6 +262,6 @@ impl Prop for C02T {
         ]
     }
     fn probes(&self) -> Vec<&'static str> {
-        vec!["reach:relative_unit_below_root", "reach:blank_message", "reach:message_ending_in_semicolon", "fired:suspension"]
+        vec!["reach:relative_unit_below_root", "reach:relative_unit_in_message_with_payload_newline", "reach:blank_message", "reach:message_ending_in_semicolon", "reach:compared_through_process", "fired:suspension"]
     }
 }
